@@ -24,11 +24,11 @@ type Val struct {
 	W   bool // primitive sent wrapped as {"data":...}
 }
 
-func prim(j string) Val     { return Val{T: 'p', J: j} }
-func ref(rid string) Val    { return Val{T: 'r', RID: rid} }
-func soft(rid string) Val   { return Val{T: 's', RID: rid} }
-func dataVal(j string) Val  { return Val{T: 'd', J: j} }
-func (v Val) isRef() bool   { return v.T == 'r' }
+func prim(j string) Val    { return Val{T: 'p', J: j} }
+func ref(rid string) Val   { return Val{T: 'r', RID: rid} }
+func soft(rid string) Val  { return Val{T: 's', RID: rid} }
+func dataVal(j string) Val { return Val{T: 'd', J: j} }
+func (v Val) isRef() bool  { return v.T == 'r' }
 func (v Val) Equal(w Val) bool {
 	if v.T != w.T {
 		return false
